@@ -9,7 +9,7 @@ open Candid Candid.Wire
 /-- coercion into `reserved` is the constant map, whatever the wire type and value -/
 theorem coerce_reserved (env : Env) (fuel : Nat) (w : Ty) (v : Val)
     (hw : (Sub.traceFull env w).isSome) :
-    coerce env true (fuel + 1) w (.prim .reserved) v = .ok .reserved := by
+    coerce env true env (fuel + 1) w (.prim .reserved) v = .ok .reserved := by
   unfold coerce
   have he : Sub.traceFull env (.prim .reserved) = some (.prim .reserved) := by
     unfold Sub.traceFull Env.trace; rfl
@@ -20,7 +20,7 @@ theorem coerce_reserved (env : Env) (fuel : Nat) (w : Ty) (v : Val)
 
 /-- a wire value of type `null` or `reserved` reads as `null` at every option type -/
 theorem coerce_null_opt (env : Env) (fuel : Nat) (e2 : Ty) (v : Val) :
-    coerce env true (fuel + 1) (.prim .null) (.opt e2) v = .ok .none := by
+    coerce env true env (fuel + 1) (.prim .null) (.opt e2) v = .ok .none := by
   unfold coerce
   have h1 : Sub.traceFull env (.prim .null) = some (.prim .null) := by unfold Sub.traceFull Env.trace; rfl
   have h2 : Sub.traceFull env (.opt e2) = some (.opt e2) := by unfold Sub.traceFull Env.trace; rfl
@@ -28,7 +28,7 @@ theorem coerce_null_opt (env : Env) (fuel : Nat) (e2 : Ty) (v : Val) :
 
 /-- no value is ever produced at the expected type `empty` -/
 theorem coerce_empty (env : Env) (fuel : Nat) (w : Ty) (v : Val) :
-    ∀ v', coerce env true (fuel + 1) w (.prim .empty) v ≠ .ok v' := by
+    ∀ v', coerce env true env (fuel + 1) w (.prim .empty) v ≠ .ok v' := by
   intro v'
   unfold coerce
   have he : Sub.traceFull env (.prim .empty) = some (.prim .empty) := by unfold Sub.traceFull Env.trace; rfl
